@@ -349,8 +349,8 @@ func (r *SparseInt16Vector) VdotM(a ConstVector, b ConstMatrix) Vector {
     panic("result and argument must be different vectors")
   }
   t := NullInt16()
-  for i := 0; i < n; i++ {
-    r.AT(i).Reset()
+  for j := 0; j < m; j++ {
+    r.AT(j).Reset()
   }
   for it := b.ConstIterator(); it.Ok(); it.Next() {
     i, j := it.Index()
